@@ -218,7 +218,12 @@ class PairwiseBasedAlgorithm:
         :param elements: the elements of the initial dataset which are the elements of the sub-problem
         :return: the list of buckets, where each element is replaced by the element of same name in 'elements'
         """
-        elements_by_name = {str(element): element for element in elements}
+        elements_by_name = {}
+        for element in elements:
+            elements_by_name[str(element)] = element
+            # a str element whose name is an integer becomes an int element in the sub-problem: "01" becomes 1
+            if element.can_be_int():
+                elements_by_name[str(int(str(element)))] = element
         return [{elements_by_name[str(element)] for element in bucket} for bucket in buckets]
 
     @staticmethod
